@@ -467,7 +467,7 @@ def main():
                 print(f"  replayed {f.get('id')} on the real crate: {r['scenario']} {r['tape']} -> {'reproduced' if ok else 'NOT reproduced'}")
     seen = set()
     for (u, e, f) in known:
-        k = (f.get("id"), u["template"])
+        k = (f.get("id"), f.get("what"))
         if k in seen:
             continue
         seen.add(k)
